@@ -6,6 +6,7 @@ variable per metric).  Both constructors run for real in one solver session; swe
 difference at the lowest level and the solver decides every output comparison.
 """
 
+import os
 import sys
 
 from pysymex import structstr as SS
@@ -321,6 +322,119 @@ def task_v4_nd(label):
     return chk.to_dict()
 
 
+def permutations_of(version):
+    """two whole-vector permutations: full reversal (every Modified / optional metric precedes
+    the base metric it refers to) and groups in reverse order with the fields of each group in
+    the standard's order"""
+    g_ = G.GRAMMARS[version]
+    names = [met for met, _ in g_["metrics"]]
+    mand = [x for x in names if x in g_["mandatory"]]
+    opt = [x for x in names if x not in g_["mandatory"]]
+    return [("reversed", list(reversed(names))), ("optional-first", opt + mand)]
+
+
+def compare_objects(sess, chk, label, version, obj, objb, mk_replay, what):
+    m, vc = sess.m, sess.vc
+    sa = O.items_of(O.call_ok(sess, chk, obj, "scores", label=label))
+    sb = O.items_of(O.call_ok(sess, chk, objb, "scores", label=label))
+    for i, (x, y) in enumerate(zip(sa, sb)):
+        O.must_hold(sess, chk, O.eq_cond(sess, x, y), "%s: scores()[%d] unchanged by %s" % (label, i, what), mk_replay)
+    accs = ["severities", "clean_vector", "rh_vector"] + (["temporal_vector", "environmental_vector"] if version in (2, 3) else [])
+    for acc in accs:
+        ra = O.call_ok(sess, chk, obj, acc, label=label)
+        rb = O.call_ok(sess, chk, objb, acc, label=label)
+        if isinstance(ra, (SymList, tuple, list)):
+            for i, (x, y) in enumerate(zip(O.items_of(ra), O.items_of(rb))):
+                O.must_hold(sess, chk, O.eq_cond(sess, x, y), "%s: %s()[%d] unchanged by %s" % (label, acc, i, what), mk_replay)
+        else:
+            O.must_hold(sess, chk, O.eq_cond(sess, ra, rb), "%s: %s() unchanged by %s" % (label, acc, what), mk_replay)
+    O.must_hold(sess, chk, O.eq_cond(sess, obj, objb), "%s: objects equal under %s" % (label, what), mk_replay)
+    ha = O.call_ok(sess, chk, obj, "__hash__", label=label)
+    hb = O.call_ok(sess, chk, objb, "__hash__", label=label)
+    O.must_hold(sess, chk, O.eq_cond(sess, ha, hb), "%s: hash equal under %s" % (label, what), mk_replay)
+
+
+def task_order(version, fixed, label):
+    """whole-vector permutations with the REAL constructor on both spellings (parse, fill-in,
+    scoring): every output equal, for all assignments.  Complements the commutation lemma, whose
+    state is the metric MAP: a computation that depends on the map's insertion order (iteration
+    over self.metrics) is invisible there and visible here."""
+    chk = Check("C05")
+    sess = Session()
+    vars_ = sess.assign_vars(version, fixed=fixed)
+    m, vc = sess.m, sess.vc
+    obj, vec, mod = O.make_object(sess, chk, version, vars_, label)
+    cls = mod.globals["CVSS%d" % version]
+    for pname, order in permutations_of(version):
+        def mk_replay(model, what, order=order):
+            return {"kind": "relational", "property": "C05", "clause": "order", "version": version, "a": sess.vector_string(version, model),
+                    "b": sess.concretize(sess.vector_from_vars(version, vars_, order=order), model), "what": what, "compare": "all"}
+
+        vecb = sess.vector_from_vars(version, vars_, order=order)
+        objb, raised = sess.call(cls, [vecb])
+        lab = "%s order=%s" % (label, pname)
+        for cond, exc in raised:
+            nm = type(exc).__name__ if isinstance(exc, BaseException) else exc.cls.name
+            O.must_not(sess, chk, vc.c_any(cond), "%s: constructor of the permuted vector raises %s" % (lab, nm), mk_replay)
+        compare_objects(sess, chk, lab, version, obj, objb, mk_replay, "the permutation '%s' of the fields" % pname)
+    chk.witnesses.append({"task": label, "a": sess.vector_string(version, m.pattern_assignment(0))})
+    chk.extra["permutation_runs"] = 2
+    chk.absorb(sess)
+    return chk.to_dict()
+
+
+def task_order4(label):
+    """v4: both spellings through the real constructor with the score abstracted; every instance
+    attribute the constructor leaves behind (metric maps compared as maps, everything else by
+    value; the raw string excepted) and every accessor must agree.  The score is a function of
+    that state (C02 executes the scoring code from it)."""
+    version = 4
+    chk = Check("C05")
+    sess = Session()
+    vars_ = sess.assign_vars(4)
+    m, vc = sess.m, sess.vc
+    mod = sess.load("cvss")
+    C.set_epoch(1)
+    sess.begin(mod)
+    from .accessors import install_shared_v4_score
+
+    # one shared arbitrary score for both spellings: the state they leave behind is compared
+    # attribute by attribute below, and the score is a function of that state
+    install_shared_v4_score(sess, mod)
+    obj, vec, mod = O.make_object(sess, chk, version, vars_, label)
+    cls = mod.globals["CVSS4"]
+    for pname, order in permutations_of(4):
+        def mk_replay(model, what, order=order):
+            return {"kind": "relational", "property": "C05", "clause": "order", "version": 4, "a": sess.vector_string(4, model),
+                    "b": sess.concretize(sess.vector_from_vars(4, vars_, order=order), model), "what": what, "compare": "all"}
+
+        vecb = sess.vector_from_vars(4, vars_, order=order)
+        objb, raised = sess.call(cls, [vecb])
+        lab = "%s order=%s" % (label, pname)
+        for cond, exc in raised:
+            nm = type(exc).__name__ if isinstance(exc, BaseException) else exc.cls.name
+            O.must_not(sess, chk, vc.c_any(cond), "%s: constructor of the permuted vector raises %s" % (lab, nm), mk_replay)
+        names = sorted(set(obj.attrs) | set(objb.attrs))
+        for a in names:
+            if a in ("vector", "base_score", "severity"):
+                continue
+            if a not in obj.attrs or a not in objb.attrs:
+                O.must_not(sess, chk, m.TRUE, "%s: attribute %s exists for one spelling only" % (lab, a), mk_replay)
+                continue
+            O.must_hold(sess, chk, O.eq_cond(sess, obj.attrs[a], objb.attrs[a]), "%s: attribute %s unchanged by the permutation" % (lab, a), mk_replay)
+        for acc in ["clean_vector", "rh_vector"]:
+            ra = O.call_ok(sess, chk, obj, acc, label=lab)
+            rb = O.call_ok(sess, chk, objb, acc, label=lab)
+            O.must_hold(sess, chk, O.eq_cond(sess, ra, rb), "%s: %s() unchanged by the permutation" % (lab, acc), mk_replay)
+        O.must_hold(sess, chk, O.eq_cond(sess, obj, objb), "%s: objects equal under the permutation" % lab, mk_replay)
+        ha = O.call_ok(sess, chk, obj, "__hash__", label=lab)
+        hb = O.call_ok(sess, chk, objb, "__hash__", label=lab)
+        O.must_hold(sess, chk, O.eq_cond(sess, ha, hb), "%s: hash equal under the permutation" % lab, mk_replay)
+    chk.extra["permutation_runs"] = 2
+    chk.absorb(sess)
+    return chk.to_dict()
+
+
 def relational_tasks(which):
     tasks = []
     for version in (2, 3):
@@ -416,10 +530,21 @@ def main_c05():
     acc = [("task_vector_independence", (v,)) for v in (2, 3, 4)]
     for r in C.run_named_tasks("harness.relational", acc):
         chk.absorb_dict(r)
+    # whole-vector permutations, real constructor on both spellings
+    otasks = []
+    for version in (2, 3):
+        for (v, fixed, label) in split_tasks(version):
+            otasks.append(("task_order", (v, fixed, label)))
+    otasks.append(("task_order4", ("v4[score abstracted]",)))
+    for r in C.run_named_tasks("harness.relational", otasks):
+        chk.absorb_dict(r)
     chk.input_model = ("Not-Defined spelling: two related runs (A from the variables, B with ABSENT<->explicit ND/X toggled on an arbitrary subset of optional metrics), all outputs compared; "
                        "field order: commutation lemma on the real loop body of parse_vector (two field slots over the legal literals + near misses, both orders, from an arbitrary metric map) "
                        "and independence of every accessor from the raw input string (executed with the string replaced by an opaque token)")
-    chk.bounds = ["commutation lemma: slot alphabet = every legal literal + a near-miss list (size in evidence)", "v4 scores under Not-Defined respelling: via equality of the filled-in metric map (the only state scoring reads)"]
+    chk.input_model += ("; whole-vector permutations: the real constructor (parse, fill-in, real scoring) on the canonical spelling and on two permutations of it (full reversal; optional metrics first) over the same variables, every output compared "
+                        "(v2 27 sessions, v3 48 sessions with real scoring; v4 with the score abstracted: every attribute the constructor leaves behind is compared, the score being a function of that state)")
+    chk.bounds = ["whole-vector permutations: two permutations, all assignments (v4: state and accessors, score abstracted); they show computations that depend on the insertion order of the metric map, which the map-valued commutation lemma cannot see",
+                  "commutation lemma: slot alphabet = every legal literal + a near-miss list (size in evidence)", "v4 scores under Not-Defined respelling: via equality of the filled-in metric map (the only state scoring reads)"]
     chk.outside = ["permutations of more than two fields: written induction over adjacent transpositions (every permutation is a product of them; the loop state after any prefix is an 'arbitrary state' of the lemma)"]
     chk.assumptions = ["the code around the loop does not look at field order (C04 L2: it only inspects emptiness, the last character and the head)",
                        "as_json()['vectorString'] echoes the input by design (C11) and is therefore the one output that legitimately depends on the spelling"]
